@@ -546,7 +546,11 @@ public:
           // Else, for tainted_volatile, this will allow a
           // time-of-check-time-of-use attack
           auto val_copy = std::make_unique<T_Deref>();
-          *val_copy = *val;
+          // Read the pointee through a tainted dereference of the pointer
+          // value fetched above, so that it is decoded with the sandbox's
+          // ABI (width, signedness) rather than the application's
+          auto val_tainted = tainted<T, T_Sbx>::internal_factory(val);
+          *val_copy = (*val_tainted).get_raw_value();
           return verifier(std::move(val_copy));
         }
       }
